@@ -131,6 +131,14 @@ func goroutineStates() map[int64]gstate {
 		if i := strings.IndexAny(st, ",]"); i >= 0 {
 			st = st[:i]
 		}
+		if st == "semacquire" && !strings.Contains(blk, "sync.runtime_Semacquire") {
+			// the runtime's own semaphores (stop-the-world, GC start) use the
+			// same wait reason as sync.WaitGroup.Wait; a thread that is merely
+			// waiting for the world to restart is running, not blocked in the
+			// library (seen once in 300 runs at GOMAXPROCS=16: the scheduler's
+			// own runtime.Stack call held worldsema)
+			st = "semacquire (runtime)"
+		}
 		res[id] = gstate{st, blk}
 	}
 	return res
@@ -160,6 +168,7 @@ type Thread struct {
 	Steps    int
 	WasBlocked bool
 	pendingRelease bool
+	blockSamples   int
 }
 
 // Picker chooses the index of the next thread among the runnable ones.
@@ -301,7 +310,12 @@ func (s *Sched) waitQuiescent() bool {
 				st := states[th.gid].state
 				switch th.state {
 				case stRunning:
-					if blockedStates[st] {
+					if !blockedStates[st] {
+						th.blockSamples = 0
+					} else if th.blockSamples++; th.blockSamples >= 3 {
+						// (three consecutive samples: one look can catch a lock that
+						// is merely contended for a moment)
+						th.blockSamples = 0
 						th.state = stBlocked
 						th.WasBlocked = true
 						if !th.pendingRelease {
@@ -426,6 +440,7 @@ func (s *Sched) Run() (verdict string) {
 		}
 		s.Trace = append(s.Trace, strconv.Itoa(pick.ID)+"@"+pick.LastSite)
 		pick.Steps++
+		pick.blockSamples = 0
 		pick.state = stRunning
 		last = pick
 		rawWrite(pick.resume.w, []byte{1})
